@@ -386,6 +386,21 @@ def gen_case(rng: random.Random, tier: str, bias: str = ''):
         emit('managed:' + what, p, ['call', hm, what, args, None, keep], macros, new=new)
         return True
 
+    def op_pass():
+        """a proxy is passed to a hosted method that does not keep it: count() returns, index() /
+        remove() / insert('x', …) raise — either way the argument must be gone with the request"""
+        cands = [(p, h, i) for p, h, i in T.live_handles() if T.kind[i] == 'list' and i not in T.inner_of]
+        if not cands:
+            return False
+        p, hc, c = rng.choice(cands)
+        _, hx, i = pick_handle(p)
+        method, args = rng.choice([('count', [{'$h': hx}]), ('index', [{'$h': hx}]), ('remove', [{'$h': hx}]),
+                                   ('insert', ['x', {'$h': hx}])])
+        st_n = len(steps)
+        emit('pass:' + method, p, ['call', hc, method, args], [f'pass {p} {c} {i}'])
+        steps[st_n]['may_raise'] = True
+        return True
+
     def op_exit():
         # a client exits only after its own children (the parent joins it)
         cands = [q for q in running() if q != '0' and not any(T.parent.get(c) == q for c in running())]
@@ -408,7 +423,7 @@ def gen_case(rng: random.Random, tier: str, bias: str = ''):
     ops = [(op_create, 5), (op_pickle, 3), (op_unpickle, 4), (op_spawn, 3 if bias != 'nospawn' else 0),
            (op_delete, 4), (op_store, 4), (op_storeplain, 1), (lambda: op_take('pop'), 3),
            (lambda: op_take('del'), 2), (lambda: op_take('get'), 3), (op_clear, 1), (op_managed, 4),
-           (op_exit, 2), (op_call, 1)]
+           (op_exit, 2), (op_call, 1), (op_pass, 3)]
     # every history starts with something to refer to
     op_create()
     n = 1
@@ -484,7 +499,8 @@ def run_case(case):
         if isinstance(r, dict) and '$hang' in r:
             mon.append(dict(prop='C13', rule='hang', detail=f'{where}: {r["$hang"]}'))
             break
-        if isinstance(r, dict) and '$raised' in r:
+        if isinstance(r, dict) and '$raised' in r and not (
+                st.get('may_raise') and r['$raised']['$exc'] in ('ValueError', 'TypeError') and r['$raised'].get('remote')):
             mon.append(dict(prop='C13', rule='op-failed', detail=f'{where}: {r["$raised"]}'))
             break
         if st['op'] == 'exit' and isinstance(r, dict) and (r.get('alive') or r.get('exitcode') != 0):
@@ -526,7 +542,7 @@ def model_lines(cid, case, res):
     lines = [f'case {cid}']
     for st, rec in zip(case['steps'], res['steps']):
         r = rec.get('r')
-        if isinstance(r, dict) and ('$hang' in r or '$raised' in r):
+        if isinstance(r, dict) and ('$hang' in r or ('$raised' in r and not st.get('may_raise'))):
             break
         lines += ['m ' + m for m in st['macros']]
         if rec.get('obs') is not None:
